@@ -98,7 +98,7 @@ impl<T: CoordFloat> Iter<T> {
 //@spec
     requires 2 * triangle_index + 1 < raw(*self).vertices@.len(),
     ensures r == vertex_at(raw(*self).vertices@, triangle_index as int),
-//@before 1 `coord! {`
+//@entry
         proof { let n = self.0.vertices.len(); assert(self.0.vertices@.len() <= usize::MAX); }
 //@end
 }
